@@ -124,6 +124,7 @@ func genArt(t *rapid.T, i int, subjW []int) Art {
 	}
 	a.Sha512 = rapid.IntRange(0, 5).Draw(t, "art_sha512") == 0
 	a.OtherAlg = rapid.IntRange(0, 5).Draw(t, "art_other_alg") == 0
+	a.Obj = rapid.SampledFrom([]string{"", "", "desc", "", "get-tag", "", "get-digest", ""}).Draw(t, "art_obj")
 	a.PartialSubject = rapid.IntRange(0, 5).Draw(t, "partial_subject") == 0
 	if a.Kind == "image" {
 		a.NoMediaType = rapid.IntRange(0, 5).Draw(t, "no_media_type") == 0
@@ -891,12 +892,37 @@ func (r *run) mutated(a *rart) {
 // newManifest builds the manifest object identified by the digest want (a.objDigest for a push, a.digest - what
 // the manifest is stored under - when the object accompanies a delete of that reference).
 func (r *run) newManifest(a *rart, want string) (manifest.Manifest, error) {
-	opts := []manifest.Opts{manifest.WithRaw(append([]byte{}, a.body...))}
-	if strings.HasPrefix(want, "sha512:") {
-		// the descriptor's digest selects the algorithm the manifest is identified by
-		opts = append(opts, manifest.WithDesc(descriptor.Descriptor{MediaType: a.mediaType, Digest: godigest.Digest(want), Size: int64(len(a.body))}))
+	return r.newManifestObj(nil, a, want, "")
+}
+
+// newManifestObj: obj selects how the object is obtained (Art.Obj); descriptor annotations are not part of the
+// manifest - whatever the object's descriptor carries, the artifact's annotations are those of its body.
+func (r *run) newManifestObj(rc *regclient.RegClient, a *rart, want string, obj string) (manifest.Manifest, error) {
+	var m manifest.Manifest
+	var err error
+	switch obj {
+	case "get-tag", "get-digest":
+		suffix := fmt.Sprintf(":src%d", a.idx)
+		if obj == "get-digest" {
+			suffix = "@" + want
+		}
+		var rf ref.Ref
+		if rf, err = ref.New("ocidir://" + r.e.srcDir + suffix); err == nil {
+			m, err = rc.ManifestGet(r.ctx, rf)
+		}
+	default:
+		opts := []manifest.Opts{manifest.WithRaw(append([]byte{}, a.body...))}
+		d := descriptor.Descriptor{MediaType: a.mediaType, Digest: godigest.Digest(want), Size: int64(len(a.body))}
+		if obj == "desc" {
+			d.Annotations = map[string]string{aRefName: "some-tag", aSrcNote: "from a descriptor"}
+			d.ArtifactType = typeUnknown
+		}
+		if obj == "desc" || strings.HasPrefix(want, "sha512:") {
+			// the descriptor's digest selects the algorithm the manifest is identified by
+			opts = append(opts, manifest.WithDesc(d))
+		}
+		m, err = manifest.New(opts...)
 	}
-	m, err := manifest.New(opts...)
 	if err == nil && m.GetDescriptor().Digest.String() != want {
 		return nil, fmt.Errorf("manifest.New computes digest %s, harness %s", m.GetDescriptor().Digest, want)
 	}
@@ -904,7 +930,7 @@ func (r *run) newManifest(a *rart, want string) (manifest.Manifest, error) {
 }
 
 func (r *run) doPut(ctx context.Context, rc *regclient.RegClient, a *rart) error {
-	m, err := r.newManifest(a, a.objDigest)
+	m, err := r.newManifestObj(rc, a, a.objDigest, a.Art.Obj)
 	if err != nil {
 		return fmt.Errorf("harness: manifest.New: %w", err)
 	}
@@ -964,6 +990,15 @@ func (r *run) doDelete(ctx context.Context, rc *regclient.RegClient, a *rart, mo
 func (r *run) artClasses(a *rart) {
 	if a.Art.Sha512 {
 		r.class("art:sha512-digest")
+	}
+	switch a.Art.Obj {
+	case "desc", "get-tag", "get-digest":
+		r.class("obj:" + a.Art.Obj)
+		if len(a.expAnnot) == 0 {
+			r.class("obj:descriptor-annotated-artifact-without-annotations")
+		} else {
+			r.class("obj:descriptor-annotated-artifact-with-annotations")
+		}
 	}
 	if a.Art.OtherAlg {
 		if a.Art.Sha512 {
@@ -1301,6 +1336,14 @@ func check(c Case, ev *evid.Collector) *evid.Violation {
 		return evid.V("harness-setup", "%v", err)
 	}
 	defer e.close()
+	for _, a := range u.arts {
+		if strings.HasPrefix(a.Art.Obj, "get-") {
+			if err := e.buildSource(u); err != nil {
+				return evid.V("harness-setup", "%v", err)
+			}
+			break
+		}
+	}
 	if c.Procs > 0 {
 		prev := runtime.GOMAXPROCS(c.Procs)
 		defer runtime.GOMAXPROCS(prev)
